@@ -86,7 +86,7 @@ func RunD1(run *vh.Run) {
 		run.Floor("debug_traceTransaction through the backend for transactions with Cosmos and Ethereum transactions ahead", run.Get("backend_traces_with_cosmos_and_ethereum_transactions_ahead"), int64(run.N(5, 60)))
 		run.Floor("debug_traceTransaction through the backend for transactions whose gas depends on an earlier transaction of the block, with a Cosmos transaction ahead", run.Get("backend_traces_whose_gas_depends_on_an_earlier_transaction_behind_a_cosmos_transaction"), int64(run.N(2, 20)))
 		run.Floor("eth_call through the JSON-RPC backend at recorded heights whose answer differs from the head state", run.Get("backend_eth_calls_whose_answer_differs_from_the_head_state"), int64(run.N(10, 100)))
-		run.Floor("entries of struct-logger traces of recorded blocks compared with the gas used in the block", run.Get("recorded_block_trace_entries_compared_with_the_executed_gas"), int64(run.N(4, 100)))
+		run.Floor("entries of struct-logger traces of recorded blocks compared with the gas used in the block", run.Get("recorded_block_trace_entries_compared_with_the_executed_gas"), int64(run.N(2, 100)))
 		run.Floor("struct-logger traces of recorded transactions compared with the gas they used in their block", run.Get("recorded_tx_traces_compared_with_the_executed_gas"), int64(run.N(2, 60)))
 		run.Floor("traces of recorded blocks / transactions asked again at a later head", run.Get("recorded_traces_asked_again_at_a_later_head"), int64(run.N(4, 100)))
 		run.Floor("estimates delivered", run.Get("estimates_delivered"), int64(run.N(40, 1000)))
